@@ -81,10 +81,13 @@ ParentLink(f, e) ==
 \*   "naive"       joins the stored path onto the target and creates through whatever is there
 \*   "parentonly"  refuses ".." but checks only the immediate parent for symbolic links
 \*   "mkdirfirst"  creates the parent directories of the stored path first and refuses afterwards
+\*   "nolinkcheck" like "safe", but entries that are symbolic links themselves are not checked for links above them
+\*                 ("unlink and symlink never follow links" - true of the last component only)
 Step(design, f, e) ==
     IF e.kind = "other" THEN Err(f)
     ELSE IF design = "mkdirfirst" /\ HasDotDot(e) THEN Err(MkdirP(f, Parent(Root \o e.comps), 1).fs)
     ELSE IF design \in {"safe", "mkdirfirst"} /\ (HasDotDot(e) \/ ThroughLink(f, e)) THEN Err(f)
+    ELSE IF design = "nolinkcheck" /\ (HasDotDot(e) \/ (e.kind # "link" /\ ThroughLink(f, e))) THEN Err(f)
     ELSE IF design = "parentonly" /\ (HasDotDot(e) \/ ParentLink(f, e)) THEN Err(f)
     ELSE LET p == Root \o (IF design # "naive" THEN NoDots(e.comps) ELSE e.comps)
              pre == MkdirP(f, Parent(p), 1)          \* parent directories are created first
